@@ -402,6 +402,24 @@ class R:
                 g.emit("wf64 %s" % x)
                 g.count("addmany64:order-episode")
 
+    def sflip_shared_episode(self):
+        """static Flip of an operand whose buckets are flagged shared (it took part in a copy-on-write Clone): buckets before, inside and
+        BEHIND the range are carried over / recomputed; the result is then edited in each of them, operand and sibling re-observed"""
+        g = self.g
+        for lo, hi in (((1 << 32) + 5, (2 << 32) + 9), (0, 1 << 32), ((3 << 32), (3 << 32) + 100), (7, 8)):
+            x, c, y = g.fresh("fs"), g.fresh("fs"), g.fresh("fs")
+            g.emit("of64 %s %s" % (x, " ".join(str((k << 32) | (k + 3)) for k in range(0, 6))))
+            g.emit("cowclone64 %s %s" % (c, x))
+            g.emit("sflip64 %s %s %d %d" % (y, x, lo, hi))
+            g.emit("alias64 %s %s %s" % (x, y, c))
+            for k in range(0, 6):
+                g.emit("add64 %s %d" % (y, (k << 32) | 900))
+                g.emit("rem64 %s %d" % (y, (k << 32) | (k + 3)))
+            g.emit("dig64 %s" % x)
+            g.emit("dig64 %s" % c)
+            g.emit("wf64 %s" % y)
+            g.count("sflip64:shared-operand-then-edit")
+
     def many_runs_episode(self):
         """batch iteration (every buffer length of a spread, incl. 0) over buckets whose chunks are RUN containers with several runs, an
         interval across 2^32, array and bitmap chunks: the batch boundary falls inside runs that are not the last of their chunk"""
@@ -425,6 +443,7 @@ class R:
         g, r = self.g, self.r
         self.addmany_order_episode()
         self.many_runs_episode()
+        self.sflip_shared_episode()
         self.boundary_episode(1)
         self.boundary_episode(0x80000000)
         self.boundary_episode()
